@@ -133,10 +133,19 @@ func (e *Engine) Observe(
 	onclose func(error),
 ) func() {
 	id := atomic.AddUint64(&lastID, 1)
+	w := &watcher{id: id, expr: expr, onupdate: onupdate, onclose: onclose}
 	cancel := func() {
+		// While the engine is running one of w's callbacks it cannot receive from
+		// removeWatcher, and the caller may be that very callback: leave the
+		// request for the engine, which honours it as soon as the callback returns.
+		// Once the watcher is gone there is nothing to do either.
+		if atomic.CompareAndSwapInt32(&w.state, watcherBusy, watcherCancelled) ||
+			atomic.LoadInt32(&w.state) == watcherCancelled {
+			return
+		}
 		e.removeWatcher <- id
 	}
-	e.addWatcher <- &watcher{id, expr, onupdate, onclose}
+	e.addWatcher <- w
 	return cancel
 }
 
@@ -150,13 +159,39 @@ type watcher struct {
 	expr     rel.Expr
 	onupdate func(rel.Value) error
 	onclose  func(error)
+
+	// state lets the watcher's cancel function see whether the engine is
+	// running one of the watcher's callbacks (accessed atomically).
+	state int32
 }
 
+const (
+	watcherIdle      int32 = iota // registered; none of its callbacks is running
+	watcherBusy                   // the engine is running one of its callbacks, or has dropped it
+	watcherCancelled              // ... and cancel has been called meanwhile
+)
+
 // update sends the watcher the value of its expression. It returns false, after
-// telling the watcher why via onclose, if the watcher failed and must be dropped
-// by the caller. It runs on the engine's goroutine, so it must not send on
-// removeWatcher, which only that goroutine receives.
-func (w *watcher) update(ctx context.Context, global rel.Scope) (ok bool) {
+// telling the watcher why via onclose, if the watcher failed or was cancelled
+// meanwhile and must be dropped by the caller.
+func (w *watcher) update(ctx context.Context, global rel.Scope) bool {
+	atomic.StoreInt32(&w.state, watcherBusy)
+	if !w.send(ctx, global) {
+		return false
+	}
+	if !atomic.CompareAndSwapInt32(&w.state, watcherBusy, watcherIdle) {
+		// cancel was called while the callback ran.
+		w.onclose(nil)
+		return false
+	}
+	return true
+}
+
+// send evaluates the expression and calls onupdate. It returns false, after
+// calling onclose with the reason, if either failed. It runs on the engine's
+// goroutine, so it must not send on removeWatcher, which only that goroutine
+// receives.
+func (w *watcher) send(ctx context.Context, global rel.Scope) (ok bool) {
 	defer func() {
 		if err := recover(); err != nil {
 			ok = false
@@ -178,5 +213,6 @@ func (w *watcher) update(ctx context.Context, global rel.Scope) (ok bool) {
 }
 
 func (w *watcher) close() {
+	atomic.StoreInt32(&w.state, watcherBusy)
 	w.onclose(nil)
 }
